@@ -95,7 +95,8 @@ fn buffered_free(cap: usize, k: usize) -> (i64, i64, bool) {
 /// before the younger one reaches the panicking item. 3: a younger pipe is created and dropped
 /// before the older one panics. 4: a pipe is drained, then `train_bpe` runs (the other place of the crate
 /// that installs a process-wide panic hook — a print-only one), then a new pipe panics. 5: `train_bpe`
-/// runs first, then a pipe panics.
+/// runs first, then a pipe panics. 6: the consumer holds the stdout lock. 7: the panic starts on a rayon
+/// helper thread inside the processing function.
 fn run_train_bpe() {
     let dir = std::env::temp_dir().join(format!("verif-c09-bpe-{}", std::process::id()));
     let _ = std::fs::create_dir_all(&dir);
@@ -153,6 +154,36 @@ fn child_panic(w: usize, n: usize, p: usize, scenario: usize) -> ! {
         5 => {
             run_train_bpe();
             for _ in mk(Some(p)) {
+                c += 1;
+            }
+        }
+        6 => {
+            // the consumer holds the process-wide stdout lock while it drains the pipe (the usual
+            // `let mut out = stdout().lock(); for x in pipe { writeln!(out, ..) }` loop): a hook that prints
+            // with `println!` before exiting would wait for that lock forever
+            use std::io::Write;
+            let mut out = std::io::stdout().lock();
+            for x in mk(Some(p)) {
+                let _ = writeln!(out, "{x}");
+                c += 1;
+            }
+        }
+        7 => {
+            // the panic starts on a helper thread (rayon pool) and is re-raised in the worker by resume_unwind:
+            // the hook runs on the helper thread, not on the pipe's worker
+            let pipeline: text_utils::data::Pipeline<usize, usize> = Arc::new(move |x| {
+                let (a, _) = rayon::join(
+                    || {
+                        if x == p {
+                            panic!("boom at {x} on a helper thread");
+                        }
+                        x
+                    },
+                    || std::thread::sleep(Duration::from_millis(1)),
+                );
+                a
+            });
+            for _ in (0..n).pipe(pipeline, w as u8) {
                 c += 1;
             }
         }
@@ -242,7 +273,7 @@ impl Prop for C09 {
                 let w = rng.range(0, 4);
                 let p = rng.range(0, n.max(1) - 1) as i64;
                 // the capacity field selects the pipe-lifecycle scenario of the child
-                Val::L(vec![Val::I(2), Val::L(xs), Val::u(w), Val::L(vec![]), Val::I(p), Val::u(rng.below(6))])
+                Val::L(vec![Val::I(2), Val::L(xs), Val::u(w), Val::L(vec![]), Val::I(p), Val::u(rng.below(8))])
             }
             3 => {
                 let w = rng.range(0, 4);
